@@ -119,6 +119,17 @@ def wenc_smt(I, labels, j, canon):
     lowered = M.lower_of(I, last)
     body = z3.Concat(WENC(arr, lo, hi - 1, cz), z3.Unit(z3.Length(last)), z3.If(cz, lowered, last))
     I.path.assume(t == z3.If(hi <= lo, z3.Empty(S.SeqI), body))
+    # lemma L-frame (by induction on hi - lo, stated, not re-proved): the encoding of labels[lo:hi] does not depend on
+    # array cells outside [lo, hi) - instantiated for the stores the array term is built from (e.g. list.append)
+    a = arr
+    for _ in range(4):
+        if z3.is_app(a) and a.decl().kind() == z3.Z3_OP_STORE:
+            base, idx = a.arg(0), a.arg(1)
+            for h in (hi, hi - 1):  # the term itself and its unfolding
+                I.path.assume(z3.Implies(z3.Or(idx >= h, idx < lo), WENC(arr, lo, h, cz) == WENC(base, lo, h, cz)))
+            a = base
+        else:
+            break
     return SBytes(t, "bytes")
 
 
